@@ -45,3 +45,19 @@ package functioncontracts
 //@ ensures infeasible-only-if-contradictory (=> (not result1) (let ((bo (callres "branch" 2))) (not (= bo nil))))
 
 //@ method golang.org/x/tools/go/ssa.Value Type fn
+
+//@ -- C20 (dataflow bookkeeping): a nilness table propagated along a CFG edge is a private copy made in that very
+//@ -- iteration - the phi handling extends propagated tables in place, so a table shared with the predecessor (or
+//@ -- between two edges) would leak facts learned on one path into another and yield contracts that are not true.
+//@ func (nilnessTable).copy
+//@ prop C20
+//@ modifies (map result)
+//@ ensures fresh-table (and (fresh result) (not (= result nil)))
+//@ loop 0 invariant copy-is-fresh (and (fresh cpt) (not (= cpt nil)))
+//@ func inferContracts
+//@ prop C20
+//@ modifies *
+//@ -- SSA phi semantics: on the execution that enters the block through predecessor i, the phi has the value of its
+//@ -- i-th edge, so a fact about the edge value holds of the phi (the tables being extended are those of that predecessor)
+//@ assume ssa-phi-semantics (soundFact (iface *ssa.Phi (local instr)) (local candNil))
+//@ loop 2 step propagated-table-is-a-private-copy (newinloop (local nTable))
